@@ -11,7 +11,7 @@ def wave(m):
 metas.sort(key=lambda m: (m['property'], wave(m), m['id']))
 missed = sum(1 for m in metas if m.get('missed_at_first'))
 out = ['<!-- seeded-table:begin -->',
-       '%d seeded changes, %d missed at first (each led to the strengthening in the last column); all are detected now.' % (len(metas), missed), '',
+       '%d seeded changes, %d missed at first (each led to the strengthening in the last column); %d are detected now, %d recorded as not detected (check `none`).' % (len(metas), missed, sum(1 for m in metas if m['detected_by']['check'] != 'none'), sum(1 for m in metas if m['detected_by']['check'] == 'none')), '',
        '| seeded change | needs | detected by (check, tier: finding key) | missed at first → strengthening |',
        '|---------------|-------|------------------------------------------|----------------------------------|']
 for m in metas:
